@@ -256,7 +256,7 @@ def run(ctx):
                 ctx.unrecognised(r1, f, opt, f"option not in the contract table for `{f.name}` (new option: extend CONTRACT)")
                 continue
             for callee, formal in targets:
-                ok, why = _reaches(repo, f, fd, deps, py, callee, formal)
+                ok, why = _reaches(repo, f, fd, deps, py, callee, formal, value_typed=_value_typed(deco) and callee != "set_backend")  # --optimizer names a class that is looked up
                 if ok is None:
                     ctx.unrecognised(r1, f, opt, why)
                 elif ok:
@@ -272,6 +272,31 @@ def run(ctx):
         _optimizer_after_backend(ctx, r1, f)
         # ---- R2
         _file_vs_stdout(ctx, r2, f)
+
+    # ---- option type converters: what click's own conversion (checks, path resolution) produced is what is returned
+    um = repo.module("src/pyhf/utils.py")
+    for cname, cls in sorted(um.classes.items()):
+        if not any((b or "").startswith("click.") for b in cls.base_names()):
+            continue
+        conv = cls.methods.get("convert")
+        if conv is None:
+            continue
+        ctx.touch(conv)
+        sup = [c for c in A.calls_in(conv.node) if isinstance(c.func, ast.Attribute) and c.func.attr == "convert" and isinstance(c.func.value, ast.Call) and A.call_name(c.func.value) == "super"]
+        if not sup:
+            continue
+        cdeps = Deps(conv.node)
+        rets = [r for r in ast.walk(conv.node) if isinstance(r, ast.Return) and r.value is not None]
+        for c in sup:
+            used = any(any(x is c for x in ast.walk(r.value)) for r in rets)
+            if not used:
+                names = {nm for n in ast.walk(conv.node) if isinstance(n, ast.Assign) and any(x is c for x in ast.walk(n.value)) for nm in A.assigned_names(n.targets[0])}
+                used = any(cdeps.roots_of(r.value) & names for r in rets) if names else False
+            site = f"{conv.relpath}::{cname}.convert: {A.short(c, 50)}"
+            if used:
+                ctx.holds(r1, site, "the value converted (checked, resolved) by click is the value returned")
+            else:
+                ctx.violated(r1, conv, c, f"{cname}.convert runs click's own conversion of the value but returns something else: the path checks and the resolution the option was declared with (resolve_path, exists ...) do not apply to what the command receives", expected="return (super().convert(...), ...)", found="result of super().convert dropped", node=c)
 
     wm = repo.func(WS, "Workspace.model")
     ctx.touch(wm)
@@ -304,7 +329,7 @@ def _calls_named(fn_node, name):
     return out
 
 
-def _reaches(repo, f, fd: FlowDeps, deps: Deps, py, callee, formal):
+def _reaches(repo, f, fd: FlowDeps, deps: Deps, py, callee, formal, value_typed=False):
     if callee == "@open":
         for c in A.calls_in(f.node):
             if A.call_attr(c) in ("open", "open_file") and c.args and fd.depends_on(c.args[0], py, at=fd.stmt_of.get(id(c))):
@@ -345,9 +370,56 @@ def _reaches(repo, f, fd: FlowDeps, deps: Deps, py, callee, formal):
             continue
         st = fd.stmt_of.get(id(c))
         if fd.depends_on(actual, py, at=st):
-            return True, f"{fname} <- {A.short(actual, 40)}"
+            alt = _altered(f, py, actual) if value_typed else None
+            if alt:
+                return False, f"{fname} <- {A.short(actual, 40)}, but the option value is altered on the way ({alt}): the library is called with something else than what the user asked for"
+            return True, f"{fname} <- {A.short(actual, 40)}" + (" (unchanged)" if value_typed else "")
         last_why = f"{fname} <- {A.short(actual, 40)} which does not derive from `{py}`"
     return False, last_why
+
+
+def _value_typed(deco):
+    """A click option whose value is a choice / flag / number / plain string (not a file or path to be loaded)."""
+    kws = {k.arg: k.value for k in deco.keywords}
+    t = kws.get("type")
+    if t is not None:
+        txt = A.unparse(t)
+        if "Choice" in txt or txt in ("float", "int", "str", "bool"):
+            return True
+        return False
+    if "is_flag" in kws and A.const_value(kws["is_flag"]) is True:
+        return True
+    if any("/" in (A.const_value(a) or "") for a in deco.args if isinstance(A.const_value(a), str)):
+        return True  # --flag/--no-flag
+    return False
+
+
+def _trivial_copy(e, py):
+    """e is `py`, or a container copy of it (dict(py), list(py), tuple(py))."""
+    if isinstance(e, ast.Name) and e.id == py:
+        return True
+    if isinstance(e, ast.Call) and isinstance(e.func, ast.Name) and e.func.id in ("dict", "list", "tuple", "set", "sorted") and len(e.args) == 1 and not e.keywords:
+        return _trivial_copy(e.args[0], py)
+    return False
+
+
+def _altered(f, py, actual):
+    """None if `actual` is the option variable unchanged (or a container copy); else a short description."""
+    stores = [n for n in ast.walk(f.node) if isinstance(n, (ast.Assign, ast.AugAssign, ast.AnnAssign)) and any(isinstance(t, ast.Name) and t.id == py for t in (n.targets if isinstance(n, ast.Assign) else [n.target]))]
+    for st in stores:
+        v = st.value
+        if isinstance(st, ast.AugAssign) or v is None or not _trivial_copy(v, py):
+            return f"`{A.short(st, 60)}` rebinds the option"
+    if _trivial_copy(actual, py):
+        return None
+    if isinstance(actual, ast.Name):
+        defs = [n for n in ast.walk(f.node) if isinstance(n, ast.Assign) and any(isinstance(t, ast.Name) and t.id == actual.id for t in n.targets)]
+        if defs and all(_trivial_copy(d.value, py) for d in defs):
+            return None
+        if defs:
+            return f"`{A.short(defs[0], 60)}`"
+        return None
+    return f"`{A.short(actual, 60)}` is computed from it"
 
 
 def _cumulative_patches(ctx, rid, f):
